@@ -99,8 +99,17 @@ func registerHash(p *Program) {
 		return arr
 	}
 	// hex renderings of addresses / hashes are only used in messages: opaque strings
+	for _, n := range []string{"(github.com/ethereum/go-ethereum/common.Hash).Hex", "(github.com/ethereum/go-ethereum/common.Hash).String"} {
+		I[n] = func(m *Machine, fr *Frame, fn *ssa.Function, a []Value) Value {
+			arr := a[0].(Array)
+			bs := make([]*Term, len(arr))
+			for i, e := range arr {
+				bs[i] = e.(*Term)
+			}
+			return &Str{b: append(m.mkStr("0x").b, m.hexEncode(bs, false)...)} // exact: these strings are used in store keys
+		}
+	}
 	for _, n := range []string{"(github.com/ethereum/go-ethereum/common.Address).Hex", "(github.com/ethereum/go-ethereum/common.Address).String",
-		"(github.com/ethereum/go-ethereum/common.Hash).Hex", "(github.com/ethereum/go-ethereum/common.Hash).String",
 		"(github.com/ethereum/go-ethereum/common.Hash).TerminalString"} {
 		I[n] = func(m *Machine, fr *Frame, fn *ssa.Function, a []Value) Value {
 			return &Str{b: m.mkStr("0x<hex>").b, tainted: true}
